@@ -17,9 +17,9 @@ STUBS = ['socket.create_connection -> in-process FakeSock wired to the real simu
          'random -> counter']
 
 OPSETS = {
-    'mixed': ["A[1-3]=7,8,9", "A[0-4]", "B[2-2]=(DINT)70000", "B[0-3]", "A[9-10]", "A[3]"],          # A[9-10] is refused (beyond end)
-    'reads': ["A[0-9]", "B[0-3]", "A[5]", "B[1-2]"],
-    'attrs': ["A[0-0]=1", "@2/1/1", "A[0-1]", "@0x02/1/99"],                                          # get attribute single (one refused)
+    'mixed': ["A[1-3]=7,8,9", "A[0-4]", "B[2-2]=(DINT)70000", "A[9-10]", "B[0-3]"],                  # A[9-10] is refused (beyond end)
+    'reads': ["A[0-9]", "B[0-3]", "A[5]"],
+    'attrs': ["A[0-0]=1", "@2/1/1", "@0x02/1/99", "A[0-1]"],                                          # get attribute single (one refused)
 }
 
 
@@ -53,7 +53,7 @@ for opset in OPSETS:
     for fragment in (False, True):
         define(globals(), 'C12', 'independent_%s%s' % (opset, '_fragment' if fragment else ''), ['depth', 'multiple'],
                "return do_independent(%r, %r, depth, multiple)" % (opset, fragment), ['0 <= depth and 0 <= multiple'],
-               tier='quick' if (opset, fragment) in (('mixed', False), ('reads', True), ('attrs', False)) else 'thorough',
+               tier='quick' if (opset, fragment) in (('mixed', False), ('reads', True)) else 'thorough',
                timeout=3000, path_timeout=600, drives=CLI_DRIVES, stubs=STUBS,
                symbolic=['depth: ANY pipelining depth >= 0 (unbounded integer)', 'multiple: ANY Multiple Service Packet size limit >= 0 (unbounded integer)'],
                bounds='operation list %r (fragment=%r) through the real client over an in-process transport against the real simulator: for every depth '
@@ -186,6 +186,7 @@ for form in ('index', 'range', 'count', 'offset', 'write', 'write_cast', 'numeri
 
 
 def do_format(c, i, a, e, cnt, symbolic):
+    c, i, a, e = (0, 255, 65535)[c], (9, 10, 256)[i], (1, 100)[a], (0, 9, 255, 65536)[e]      # width / digit-count boundary values, chosen by selector
     segs = [{'symbolic': 'Tag'}, {'symbolic': 'Sub'}] if symbolic else [{'class': c}, {'instance': i}, {'attribute': a}]
     segs = segs + [{'element': e}]
     text = client.format_path(segs, count=cnt)
@@ -195,7 +196,7 @@ def do_format(c, i, a, e, cnt, symbolic):
 
 
 define(globals(), 'C12', 'format_path_roundtrip', ['c', 'i', 'a', 'e', 'cnt', ('symbolic', 'bool')], "return do_format(c, i, a, e, cnt, symbolic)",
-       ['c in (0, 1, 255, 256, 65535) and i in (0, 9, 10, 255, 256) and a in (1, 99, 100) and e in (0, 9, 10, 255, 256, 65536) and cnt in (1, 2, 10)'],
+       ['0 <= c <= 2 and 0 <= i <= 2 and 0 <= a <= 1 and 0 <= e <= 3 and 1 <= cnt <= 2'],
        timeout=3000, path_timeout=60, drives=['cpppo.server.enip.client.format_path', 'cpppo.server.enip.device.parse_path_elements'],
        bounds='format_path -> parse_path_elements for class/instance/attribute/element/count chosen by the solver among width and digit-count '
               'boundary values (%% formatting realises ints), symbolic and numeric forms', outside='other values (bounded: stated in DESIGN)')
